@@ -185,12 +185,14 @@ def exact_floor(x, rate):
 
 
 def exact_round(x, rate):
-    """round-half-even(x*rate) on the float passed; razor flag when the
-    exact product is within 1e-9 of a .5 boundary."""
+    """round-half-even(x*rate) on the float passed - what the statements write
+    as round(.).  Razor flag when the exact product is within 1e-9 of a .5
+    boundary *without being on it* (float noise could go either way); an exact
+    tie is not ambiguous: the float product is exact too and rounds to even."""
     q = Fraction(x) * rate
     r = round(q)
     half = abs(abs(q - math.floor(q)) - Fraction(1, 2))
-    return int(r), half <= Fraction(1, 10**9) * max(1, abs(q))
+    return int(r), 0 < half <= Fraction(1, 10**9) * max(1, abs(q))
 
 
 def block_model(nsamples, B, H, maxsamples):
